@@ -7,12 +7,14 @@
 (*     end tag "c", empty element "l", character data "x"), built step by  *)
 (*     step by XmlIn_MC inside one of the CONTEXTS (a path of open         *)
 (*     elements from the root down to the place where the generated        *)
-(*     elements go), grammatical or not;                                   *)
+(*     elements go; every container of the alphabet, i.e. every token loop *)
+(*     of the reader, is the innermost element of one), grammatical or not;*)
 (*   * one MUTATION of the main part (truncation after / inside any token, *)
 (*     dropped or duplicated tags, root and namespace spellings, prolog    *)
 (*     variants, extreme depth / width / text size, empty or absent part); *)
 (*   * one deviation of the PACKAGE (another part broken, ZIP-level shape, *)
-(*     entry point).                                                       *)
+(*     a sound archive whose directory lies about an entry's sizes,        *)
+(*     checksum or method, entry point).                                   *)
 (* The harness turns the value into bytes; nothing else decides the bytes. *)
 (*                                                                         *)
 (* The REFERENCE MACHINE is the relation the property states: Open returns *)
